@@ -33,18 +33,24 @@ pub fn bounds_violation<F: Fam>(inst: &F, out: &Outcome) -> Vec<(&'static str, S
     v
 }
 
+/// longest uninterrupted run (in cutoff polls) whose cutoff indices are enumerated / sampled
+static REF_CAP: std::sync::atomic::AtomicU64 = std::sync::atomic::AtomicU64::new(150_000);
 fn seq_enumeration<F: Fam>(spec: &CaseSpec, prop: &'static str) {
     let inst = Arc::new(F::generate(spec.gen_seed, spec.size, spec.variant));
     let mut cfg = spec.cfg.clone();
     cfg.par = None;
-    cfg.cutoff_k = 0;
+    // the reference run is capped (the enumeration re-runs the search ~90 times up to a sampled poll index): longer searches
+    // are left to the campaigns that run them once (C01, C03, C09)
+    let cap = REF_CAP.load(std::sync::atomic::Ordering::Relaxed);
+    cfg.cutoff_k = cap + 1;
     let reference = run_solver(&inst, &cfg);
+    cfg.cutoff_k = 0;
     if reference.livelock.is_some() {
         with_acc(|a| { a.evaluations += 1; a.inconclusive("non-termination of the pooled diagram on a long-arc model (decided by C15 / C01)", light_case(spec, inst.as_ref())); });
         return;
     }
     if reference.cutoff_fired {
-        with_acc(|a| { a.evaluations += 1; a.inconclusive("the uninterrupted reference run exhausted the step budget", light_case(spec, inst.as_ref())); });
+        with_acc(|a| { a.evaluations += 1; a.bump("instances_skipped_because_the_reference_run_exceeds_the_poll_cap", 1); });
         return;
     }
     if reference.lib_panic().is_some() || reference.completion.is_none() {
@@ -166,6 +172,7 @@ pub fn run_c05(shard: &Shard) -> i32 {
     const PROP: &str = "C05";
     set_current(PROP, false);
     if let Some(path) = &shard.replay { return replay(path, PROP); }
+    REF_CAP.store(if shard.quick() { 4000 } else { 20_000 }, std::sync::atomic::Ordering::Relaxed);
     case_loop(shard, u64::MAX, |_i, rng| {
         if shard.idx % 2 == 0 {
             let p = Profile { with_dominance: true, small: rng.chance(1, 6), depth_free_bias: rng.chance(1, 3), medium_share: if shard.quick() { 0 } else { 1 }, large_share: if shard.idx % 16 == 14 { 8 } else { 0 }, ..Default::default() };
@@ -189,6 +196,7 @@ pub fn run_c19(shard: &Shard) -> i32 {
     const PROP: &str = "C19";
     set_current(PROP, false);
     if let Some(path) = &shard.replay { return replay(path, PROP); }
+    REF_CAP.store(if shard.quick() { 4000 } else { 20_000 }, std::sync::atomic::Ordering::Relaxed);
     case_loop(shard, u64::MAX, |_i, rng| {
         let p = Profile { with_dominance: true, small: rng.chance(1, 4), depth_free_bias: rng.chance(1, 3), medium_share: if shard.quick() { 0 } else { 1 }, large_share: if shard.idx % 16 == 14 { 8 } else { 0 }, ..Default::default() };
         let spec = random_spec(rng, &p);
